@@ -23,6 +23,27 @@ impl RatchetResult {
     pub const fn is_outdated(&self) -> bool {
         self.stale_entries > 0
     }
+
+    /// Keep only the stale paths for which `keep` holds.
+    fn retain(&mut self, keep: impl Fn(&str) -> bool) {
+        self.stale_paths.retain(|p| keep(p));
+        self.stale_entries = self.stale_paths.len();
+    }
+}
+
+/// What a run looked at, for deciding which baseline entries it may call resolved.
+pub struct EvaluatedPaths {
+    /// Paths of all results of this run plus the directories whose counts were checked.
+    pub paths: HashSet<String>,
+    /// True when directories were scanned (not `--files` mode): a path that no longer
+    /// exists was then seen to be gone.
+    pub scanned: bool,
+}
+
+impl EvaluatedPaths {
+    fn covers(&self, baseline_path: &str) -> bool {
+        self.paths.contains(baseline_path) || (self.scanned && !Path::new(baseline_path).exists())
+    }
 }
 
 pub fn load_baseline(baseline_path: Option<&Path>) -> crate::Result<Option<Baseline>> {
@@ -255,6 +276,7 @@ pub fn handle_baseline_ratchet(
     args: &CheckArgs,
     config: &Config,
     results: &[CheckResult],
+    evaluated: &EvaluatedPaths,
     baseline: &mut Option<Baseline>,
     project_root: &Path,
     quiet: bool,
@@ -283,8 +305,11 @@ pub fn handle_baseline_ratchet(
         return Ok(false);
     };
 
-    // Check for stale entries
-    let ratchet_result = check_baseline_ratchet(results, current_baseline);
+    // Check for stale entries. Entries for paths this run did not evaluate (explicit file
+    // lists, diff/staged filters, a fail-fast short-circuit, other scan roots) are not
+    // known to be resolved and are left alone.
+    let mut ratchet_result = check_baseline_ratchet(results, current_baseline);
+    ratchet_result.retain(|p| evaluated.covers(p));
 
     if !ratchet_result.is_outdated() {
         return Ok(false);
